@@ -217,6 +217,34 @@ def run(ctx, report):
         else:
             R3.violation('candidate-mode', 'mode:candidate', 'the candidate tuple no longer carries %s as its operand mode: %s' % (prefix_guard, norm(n)[:80]), where(arch, n))
 
+    # the operand mode is detected from ALL operands: a 32-bit register anywhere wins over an earlier 16-bit operand
+    det = None
+    for n in walk_no_nested(ac):
+        if isinstance(n, ast.For) and u(n.iter) == 'args_eval' and any(isinstance(x, ast.Assign) and u(x.targets[0]) == prefix_guard for s2 in n.body for x in ast.walk(s2)):
+            det = n
+    if det is None:
+        raise AnalysisError('asm_candidates: the loop that detects the operand mode from the operands was not found')
+    for st in det.body:
+        if not isinstance(st, ast.If):
+            continue
+        sets = [x for s2 in st.body for x in ast.walk(s2) if isinstance(x, ast.Assign) and u(x.targets[0]) == prefix_guard]
+        if not sets:
+            continue
+        val = u(sets[0].value)
+        brk = any(isinstance(x, ast.Break) for s2 in st.body for x in ast.walk(s2))
+        inst = 'mode-detection:%s' % val
+        if val in ('u16', 'x86_afs.u16'):
+            if brk:
+                R3.violation(inst, 'mode:detect:u16-break', 'the operand-mode detection stops at the first 16-bit operand: a 32-bit register that follows (out dx, eax) is ignored and the '
+                             'instruction gets the 0x66 prefix', where(arch, st), witness="asm('out dx, eax') == [66 ef]")
+            else:
+                R3.ok(inst, sample='a 16-bit operand selects u16 only provisionally (the scan continues)')
+        elif val in ('u32', 'x86_afs.u32'):
+            if brk:
+                R3.ok(inst, sample='a 32-bit register decides u32 at once')
+            else:
+                R3.violation(inst, 'mode:detect:u32-nobreak', 'a 32-bit register no longer ends the operand-mode detection: a later 16-bit operand can override it', where(arch, st))
+
     R4 = report.rule('C02.D4', 'grammar actions accumulate register coefficients when they merge two parsed operands', floor=2)
     accumulate_rule(R4, att, pa)
 
@@ -435,6 +463,7 @@ MUTANTS = [
     ('deref2-overwrite', 'miasmx/arch/ia32_att.py', "    t[0][reg] = 1 + t[0].get(reg, 0)", "    t[0][reg] = 1", 'C02.D4'),
     ('fd-afs-mm-all-bytes', 'miasmx/arch/ia32_arch.py', "            # the reverse table only lists bytes with an empty reg field\n            if i == i&0xC7:\n                self.fd_afs[ad].append((i, None))", "            self.fd_afs[ad].append((i, None))", 'C02.D5'),
     ('fd-afs-wrong-index', 'miasmx/arch/ia32_arch.py', "                if not (index, None)  in self.fd_afs[ad]:\n                    self.fd_afs[ad].insert(0, (index, None) )\n        for i in range(0x100):", "                if not (index, None)  in self.fd_afs[ad]:\n                    self.fd_afs[ad].insert(0, (index^1, None) )\n        for i in range(0x100):", 'C02.D5'),
+    ('mode-detect-break', 'miasmx/arch/ia32_arch.py', "                    # keep looking: a 32-bit register further on wins\n                    # (e.g. the port register of 'out dx, eax')\n                    self.mnemo_mode = u16\n", "                    self.mnemo_mode = u16\n                    break\n", 'C02.D3'),
     ('forge-nocheck', 'miasmx/arch/ia32_arch.py', "                v = check_imm_size(a.get(x86_afs.imm, 0), ad[x86_afs.imm])\n                if v is None:\n                    log.debug(\"cannot encode this val in size forge!\")\n                    return None, None\n",
      "                v = tab_size2int[ad[x86_afs.imm]](a.get(x86_afs.imm, 0))\n", 'C02.D1'),
 ]
